@@ -125,7 +125,7 @@ func runBurst(c *core.Ctx, r *core.Result) {
 						break
 					}
 					_ = q.Logon(30)
-					_, alive = q.WaitFor(live.IsType("A"), 500*time.Millisecond)
+					_, alive = q.WaitFor(live.IsType("A"), 3*time.Second)
 					q.Close()
 					if !alive {
 						time.Sleep(50 * time.Millisecond) // the previous connection may not have been torn down yet
